@@ -70,6 +70,8 @@ RINGS_OK = {
     "ring3_dfix": T([NP("A"), "B", "C"], [("A", "B"), ("B", "C"), ("C", "A", ["dfix"])]),
     "ring3_split": T([NP("A"), "B", "C"], [("A", "B", ["dfix"]), ("B", "C"), ("C", "A", ["dfix"])]),
     "ring2_pull": T([NP("A"), "P", "B"], [("A", "P"), ("P", "B"), ("B", "A", ["dfix"])]),
+    # delay-resolved ring with an undelayed tail feeding A; A declares the delayed input first
+    "ring2_tail_in": T([NP("A"), "B", "C"], [("B", "A", ["dfix"]), ("C", "A"), ("A", "B")]),
 }
 
 RINGS_PUSH = {
@@ -85,6 +87,9 @@ RINGS_BAD = {
     "ring3_chord": T([NP("A"), "B", "C"], [("A", "B"), ("B", "C"), ("C", "A"), ("A", "C")]),
     "ring2_tail": T([NP("A"), "B", "C"], [("A", "B"), ("B", "A"), ("B", "C")]),
     "ring2_pull": T([NP("A"), "P", "B"], [("A", "P"), ("P", "B"), ("B", "A")]),
+    # undelayed 3-ring plus a delayed chord A -> C; C declares the chord input first
+    "ring3_delayed_chord": T([NP("A"), "B", "C"],
+                             [("A", "C", ["dfix"]), ("A", "B"), ("B", "C"), ("C", "A")]),
     "ring4": T([NP("A"), "B", "C", "D"], [("A", "B"), ("B", "C"), ("C", "D"), ("D", "A")]),
     "ring5": T([NP("A"), "B", "C", "D", "E"],
                [("A", "B"), ("B", "C"), ("C", "D"), ("D", "E"), ("E", "A")]),
